@@ -18,6 +18,9 @@ pub struct Case {
     /// Drawn flags that only concern proof search (-n, -m, -t, --no-timing).
     pub run_flags: Vec<String>,
     pub save_problems: bool,
+    /// The --save-problems directory already holds longer files of the same names (left by an earlier task).
+    #[serde(default)]
+    pub stale_out: bool,
     pub instances: usize,
     pub cpus: usize,
     pub mix: String,
@@ -273,6 +276,7 @@ pub fn draw_shape(rng: &mut Rng, tasks: &[Task], tier: &Tier) -> Case {
         flags,
         run_flags: vec![],
         save_problems: false,
+        stale_out: false,
         instances: 1,
         cpus: 1,
         mix: String::new(),
@@ -303,6 +307,7 @@ pub fn draw_run(rng: &mut Rng, case: &mut Case, reference: &[(String, Vec<u8>)],
         case.run_flags.push("--no-timing".into());
     }
     case.save_problems = rng.pct(40);
+    case.stale_out = case.save_problems && rng.pct(40);
     let cores = if m_opt == 0 { case.cpus } else { m_opt };
     case.instances = if n_opt == 0 { (case.cpus / cores).max(1) } else { n_opt };
 
